@@ -139,10 +139,14 @@ type Ctx struct {
 	C    *Case
 	Res  *Result
 	Race bool
+	// RulePrefix marks every violation of a stratum whose history shape is a
+	// recorded known finding (so that it can be matched narrowly).
+	RulePrefix string
 }
 
 func (x *Ctx) Violate(rule, format string, a ...any) {
 	d := fmt.Sprintf(format, a...)
+	rule = x.RulePrefix + rule
 	for _, v := range x.Res.Viol {
 		if v.Rule == rule {
 			return // one report per rule per run
